@@ -60,3 +60,11 @@ native('C22.limits', ['C22'], 'bounded', 'sizes {limit-1, limit, limit+1} (limit
        'aquavm-air', 'air/src/preparation_step/preparation.rs', 'size_limits.rs', 'verif_native_size_limits::limits_are_exact',
        what='real check_against_size_limits and the per-call-result check of make_exec_ctx (a closure over HashMap::values that Verus cannot take): '
             'hard mode rejects exactly when a size is above its limit with the matching error kind; soft mode raises exactly the matching flags')
+native('C01.slider_grid', ['C01', 'C09'], 'bounded', 'traces of length 0..=3 x 9 x 9 boundary values of position / subtrace_len (324 cases)', 'air-trace-handler',
+       'crates/air-lib/trace-handler/src/data_keeper/trace_slider.rs', 'slider_grid.rs', 'verif_native_slider_grid::slider_contracts_on_boundary_grid',
+       what='executable reading of the TraceSlider contracts of unit slider on a boundary grid; paired refuter: a failing case is a concrete input replayed on the real code',
+       pairs=['slider:TraceSlider::set_position_and_len', 'slider:TraceSlider::set_subtrace_len', 'slider:TraceSlider::next_state'])
+native('C01.convolution_grid', ['C01'], 'bounded', 'fold lores of <= 3 records, generations over {g0, g1}, before/after lens over 7 boundary values (all 1- and 2-record lores, every 7th 3-record lore)', 'air-trace-handler',
+       'crates/air-lib/trace-handler/src/merger/fold_merger/fold_lore_resolver.rs', 'convolution_grid.rs', 'verif_native_convolution_grid::convolution_matches_reference_and_never_panics',
+       what='compute_lens_convolution never panics on hostile lens, errs exactly when the running total overflows u32, and otherwise equals a reference convolution computed in u64; paired refuter of unit convolution',
+       pairs=['convolution:compute_lens_convolution', 'convolution:compute_before_lens'])
